@@ -544,7 +544,12 @@ def hist_vec(rng):
     return [dy(rng, -4, 4, 4) * rng.choice((1.0, 1000.0, 1e6)) for _ in range(3)]
 
 
-def gen_history(rng, cls="Cuboid"):
+def low_vec(rng):
+    """a magnetization below the 2000 A/m warning threshold (as polarization: times mu_0)"""
+    return [dy(rng, -4, 4, 4) * rng.choice((1.0, 100.0)) for _ in range(3)]
+
+
+def gen_history(rng, cls="Cuboid", strict=False):
     init = None if rng.random() < 0.4 else [rng.choice(("pol", "mag")), hist_vec(rng)]
     if init is not None and all(x == 0 for x in init[1]):
         init[1][0] = 1.0
@@ -554,7 +559,13 @@ def gen_history(rng, cls="Cuboid"):
         for _ in range(rng.choice((0, 0, 1, 1, 2, 3))):
             ops.append(rng.choice((["read", "pol"], ["read", "mag"], ["read", "mag"], ["getJ"], ["getM"], ["copy0"])))
         k = rng.random()
-        if k < 0.12:
+        if strict and k > 0.7:
+            # the assignment made with warnings escalated to errors (python -W error); low values trigger the
+            # "very low magnetization" warning, which then raises out of the setter
+            which = rng.choice(("mag!", "mag!", "pol!"))
+            v = rng.choice((low_vec(rng), low_vec(rng), hist_vec(rng)))
+            ops.append([which, v if which == "mag!" else [x * 1e-6 for x in v]])
+        elif k < 0.12:
             ops.append([rng.choice(("pol", "mag")), None])
         elif k < 0.25:
             ops.append(["copy", rng.choice(("pol", "mag")), hist_vec(rng)])
@@ -579,6 +590,14 @@ def hist_apply(obj, op, inside):
         obj.polarization = op[1]
     elif k == "mag":
         obj.magnetization = op[1]
+    elif k in ("pol!", "mag!"):
+        import warnings
+        with warnings.catch_warnings():
+            warnings.simplefilter("error")
+            try:
+                setattr(obj, "polarization" if k == "pol!" else "magnetization", op[1])
+            except Exception:   # pylint: disable=broad-except
+                pass            # whatever was raised: the pair must be consistent afterwards
     elif k == "copy":
         obj = obj.copy(**{("polarization" if op[1] == "pol" else "magnetization"): op[2]})
     elif k == "copy0":
@@ -1651,6 +1670,8 @@ def search_rings(ctx, n):
 def last_assignment(h, n):
     ops = ([] if h["init"] is None else [[h["init"][0], h["init"][1]]]) + h["ops"][:n]
     for op in reversed(ops):
+        if op[0] in ("pol!", "mag!"):
+            return None         # may have been rejected: either the old or the new pair is acceptable
         if op[0] in ("pol", "mag"):
             return op[0], op[1]
         if op[0] == "copy":
@@ -1754,8 +1775,14 @@ def shrink_history(h, trig):
 def search_attrs(ctx, n):
     rng = ctx.rng
     classes = list(HIST_CLASSES)
-    for t in range(n):
-        h = gen_history(rng, classes[t % len(classes)])
+    # fixed histories, every run: an assignment that raises (warnings as errors, value below the warning threshold)
+    fixed = []
+    for cls in classes:
+        fixed += [{"cls": cls, "init": None, "ops": [["mag!", [100.0, 0.0, -50.0]]]},
+                  {"cls": cls, "init": ["pol", [0.0, 0.0, 1.0]], "ops": [["read", "mag"], ["mag!", [0.0, 1500.0, 0.0]], ["getM"]]},
+                  {"cls": cls, "init": ["mag", [1e6, 0.0, 0.0]], "ops": [["pol!", [1e-4, 0.0, 0.0]], ["mag!", [1.0, 2.0, 3.0]]]}]
+    for t in range(len(fixed) + n):
+        h = fixed[t] if t < len(fixed) else gen_history(rng, classes[t % len(classes)], strict=True)
         res = attr_check_all(h)
         ctx.case(("attrs", json.dumps(h)), True)
         ctx.bump("search:setter-history:" + h["cls"])
